@@ -1696,7 +1696,13 @@ def m_write_all(c):
     for good in ((True,) if (sim and c.I.opts.get("io_ok_only")) else (True, False)):
         s2 = c.st.fork() if good else c.st
         c.I.havoc_through(s2, c.args[0])
-        if good and sim:
+        if good and sim and c.I.opts.get("len_sim"):
+            r = as_region(c.I, s2, c.args[1])
+            if r is not None:
+                s2.notes["wlen"] = s2.notes.get("wlen", Lin.const(0)) + r.len
+            else:
+                s2.notes["wlen_bad"] = True
+        elif good and sim:
             # comparison runs: successful writes are logged (bytes when the length is a small constant)
             r = as_region(c.I, s2, c.args[1])
             if r is not None and r.len.is_const() and r.len.c <= 64:
@@ -2032,7 +2038,7 @@ def m_ck_add_slice(c):
         for i, b in enumerate(c.I.region_bytes(c.st, r, r.len.c)):
             lin = lin + b.lin.scale(256 if i % 2 else 1)
         return _ck_ret(c, lin, acc)
-    rg = c.I.int_range(c.st, r.len, cap=64) if r.origin[0] == "place" else None
+    rg = c.I.int_range(c.st, r.len, cap=64) if (r.origin[0] == "place" and not c.I.opts.get("len_sim")) else None
     if rg is not None and rg[1] - rg[0] <= 48:
         outs = []
         for n in range(rg[0], rg[1] + 1):
